@@ -8,6 +8,7 @@
 -/
 import LouModel.Driver
 import LouModel.Forward
+import LouModel.ForwardCtx
 import LouModel.Backward
 import LouModel.Pass
 
@@ -35,6 +36,25 @@ def modelEngineBack (t : Table) : Engine := fun ini _hist pin =>
     match Pass.backStage t pin.passNo pin.chars pin.maxlen with
     | .done o => { out := o.out, map := o.map.take o.realInlen, realInlen := o.realInlen, cpos := pin.cpos, cstat := pin.cstat }
     | _ => { out := [], map := [], realInlen := 0, cpos := pin.cpos, cstat := pin.cstat }
+
+/-- the same with the main pass of ForwardCtx.lean (F0 + context rules) -/
+def modelEngineC (t : Table) : Engine := fun ini _hist pin =>
+  if pin.passNo == 1 then
+    match FwdC.translateC t ini.mode pin.chars pin.maxlen pin.cpos pin.cstat with
+    | .done r => { out := r.out, map := r.map, realInlen := r.realInlen, cpos := r.cpos, cstat := r.cstat }
+    | _ => { out := [], map := [], realInlen := 0, cpos := pin.cpos, cstat := pin.cstat }
+  else
+    match Pass.fwdStage t pin.passNo pin.chars pin.maxlen with
+    | .done o => { out := o.out, map := o.map, realInlen := o.realInlen, cpos := pin.cpos, cstat := pin.cstat }
+    | _ => { out := [], map := [], realInlen := 0, cpos := pin.cpos, cstat := pin.cstat }
+
+/-- does the forward main pass of `t` see context rules -/
+def hasContextFwd (t : Table) : Bool :=
+  !(t.forPassChain 1).isEmpty || t.rules.any (fun r => r.opcode == CTO_Context && !r.chars.isEmpty)
+
+/-- the engine `callFwd` runs: the F0 engine (about which `ModelEngine`/`CurBlind` speak) unless the table has context
+    rules in its main pass -/
+def engineFor (t : Table) : Engine := if hasContextFwd t then modelEngineC t else modelEngine t
 
 /-- is the main pass of `t` inside F0, other stages allowed (compare `Fwd.unsupported`, which also refuses them) -/
 def mainGuardFwd (t : Table) : Option String :=
@@ -68,14 +88,17 @@ def stageUncovered (t : Table) (back : Bool) (h : List (PassIn × PassOut)) : Bo
 
 /-- the whole forward call; `none` = outside the fragment (with the reason) -/
 def callFwd (t : Table) (disp : Nat → Nat) (a : Args) : Except String (Result × List (PassIn × PassOut)) :=
-  match mainGuardFwd t with
+  match (if hasContextFwd t then FwdC.unsupportedC t else mainGuardFwd t) with
   | some why => .error why
   | none =>
     if hasBit a.mode mCompbrlAtCursor || hasBit a.mode mCompbrlLeftCursor then .error "compbrl mode" else
     let ti := tableInfo t
-    let h := (fwdRun ti (modelEngine t) a).hist
+    let h := (fwdRun ti (engineFor t) a).hist
     if stageUncovered t false h then .error "stage outside the pass fragment" else
-    .ok (fwd (some ti) disp (modelEngine t) a, h)
+    if hasContextFwd t && h.any (fun x => x.1.passNo == 1 &&
+        (match FwdC.translateC t a.mode x.1.chars x.1.maxlen x.1.cpos x.1.cstat with | .done _ => false | _ => true))
+    then .error "main pass outside the context fragment" else
+    .ok (fwd (some ti) disp (engineFor t) a, h)
 
 def callBack (t : Table) (dotsFor : Nat → Nat) (a : Args) : Except String (Result × List (PassIn × PassOut)) :=
   match mainGuardBack t with
